@@ -23,7 +23,21 @@ RespEq(r, exp) ==
   /\ ToSet(r.reasons) = exp.reasons
   /\ NoDup(r.errors) /\ ToSet(r.errors) = exp.errors
 
+\* a partial entity store: the missing entity is unknown; every option for it (a record, or absence) is a completion
+PStoreOk(ev) ==
+  /\ Len(ev.scratch) = Len(ev.options)
+  /\ LET P == PolSet(ev)
+         req == FromWireReq(ev.req)
+         store == FromWireStore(ev.store)
+         presp == PartialResp(ev.resp)
+     IN \A i \in 1..Len(ev.options) :
+          LET o == ev.options[i]
+              st == IF "absent" \in DOMAIN o THEN store ELSE FromWireStore(ev.store \o <<o>>)
+              exp == Authorize(P, req, st)
+          IN SoundFor(presp, P, req, st) /\ RespEq(ev.scratch[i], exp)
+
 Explained(ev) ==
+  IF ev.ev = "PartialStore" THEN PStoreOk(ev) ELSE
   /\ ev.ev = "Partial"
   /\ Len(ev.reauth) = Len(ev.completions) /\ Len(ev.scratch) = Len(ev.completions)
   /\ LET P == PolSet(ev)
